@@ -165,7 +165,7 @@ func c18Key(c *Ctx, sx *symx.Ctx) {
 	// the registry accessor: any repo function of package metrics that does a
 	// Lookup/MapUpdate on a map[string]*T whose origin is a Collector field
 	keyFns := map[*ssa.Function]bool{}
-	tr := &origin.Tracer{}
+	tr := &origin.Tracer{CG: c.P.CallGraph()} // a key handed to a lookup helper is the argument at its call sites
 	nSites := 0
 	for _, fn := range c.P.RepoFuncs() {
 		pk := c.P.PkgOfFunc(fn)
